@@ -118,7 +118,48 @@ def rule_merge(repo, rule):
     if len(sels) < 2:
         rule.violation(exit_.loc(), exit_.fq, "%d selections" % len(sels), "exit does not merge both defined and newly defined variables",
                        "merge/count")
+    from ..seqs import resolve_at as _ra9
+    from ..flatten import resolve_locals as _rl9
+
+    # local aliases of the dictionaries (`live = self.ctx.vals`): the same object under another name, also where it is updated
+    from ..flatten import _Subst as _S9
+    from ..loader import clone as _cl9
+    _st = {}
+    for x_ in ast.walk(exit_.node):
+        if isinstance(x_, ast.Name) and not isinstance(x_.ctx, ast.Load):
+            _st[x_.id] = _st.get(x_.id, 0) + 1
+    aliases = {a_.targets[0].id: a_.value for a_ in ast.walk(exit_.node) if isinstance(a_, ast.Assign) and len(a_.targets) == 1
+               and isinstance(a_.targets[0], ast.Name) and _st.get(a_.targets[0].id) == 1 and isinstance(a_.value, ast.Attribute)
+               and norm(a_.value).startswith("self.")}
+
+    def _res(node_, e_):
+        """expression at node_ in terms of the key __k0 of the dict the enclosing loop walks (aliases of the dicts resolved)"""
+        r_, lps_ = _ra9(exit_.node, node_, e_)
+        r_ = _rl9(exit_.node, _S9(aliases).visit(_cl9(r_)) if aliases else r_)
+        base_ = lps_[0][1].base if lps_ and lps_[0][1] is not None else None
+        if base_ is not None:
+            try:
+                b0_ = ast.parse(base_, mode="eval").body
+                base_ = norm(_rl9(exit_.node, _S9(aliases).visit(b0_) if aliases else b0_))
+            except SyntaxError:
+                pass
+        return norm(r_).replace("__e0", "__k0"), base_
     for c in sels:
+        tgt = getattr(c, "_parent", None)
+        if isinstance(tgt, ast.Assign) and isinstance(tgt.targets[0], ast.Subscript) and [p for p in parents(c) if isinstance(p, ast.For)]:
+            ra = [_res(c, x) for x in c.args]
+            tt_, base_ = _res(c, tgt.targets[0])
+            a_ = [x[0] for x in ra]
+            term = "over %s: %s = if_then_else(%s)" % (base_, tt_, ", ".join(a_))
+            good = a_[0] == "self.cond" and a_[1] == "self.ctx.vals[__k0]" and a_[2] in ("self.bak[__k0]", "self.nodefvals[__k0]") \
+                and tt_ in ("self.ctx.vals[__k0]", "self.nodefvals[__k0]") and base_ in ("self.ctx.vals", "self.nodefvals") \
+                and (a_[2] == "self.nodefvals[__k0]") == (tt_ == "self.nodefvals[__k0]")
+            if good:
+                rule.ok(exit_.loc(c), exit_.fq, term, "branch value selected when the condition holds, previous value otherwise")
+            else:
+                rule.violation(exit_.loc(c), exit_.fq, term, "merge is not select(cond, value written in the branch, value before the branch) "
+                               "for the same variable", "merge/%s" % (base_ or "?"))
+            continue
         a = [norm(x) for x in c.args]
         loops = [p for p in parents(c) if isinstance(p, ast.For)]
         nm = norm(loops[0].target) if loops else None
@@ -163,7 +204,23 @@ def rule_merge(repo, rule):
     else:
         rule.violation(enter.loc(), enter.fq, norm(body)[:120], "variables are not backed up before the branch starts", "merge/backup")
     bv = repo.cls(BR, "BranchingValues").methods.get("backup")
-    if bv is not None and "for nm, val in self.vals.items()" in norm(bv.node.body) and "deepcopy" in norm(bv.node.body):
+    def _copies_all(fn):
+        """for k, v in self.vals.items(): D[k] = deepcopy(v) ... return D   (any names)"""
+        for lp in ast.walk(fn):
+            if isinstance(lp, ast.For) and norm(lp.iter) in ("self.vals.items()", "list(self.vals.items())") and isinstance(lp.target, ast.Tuple) \
+                    and len(lp.target.elts) == 2 and all(isinstance(t, ast.Name) for t in lp.target.elts):
+                k_, v_ = lp.target.elts[0].id, lp.target.elts[1].id
+                for st in lp.body:
+                    if isinstance(st, ast.Assign) and isinstance(st.targets[0], ast.Subscript) and norm(st.targets[0].slice) == k_ \
+                            and isinstance(st.value, ast.Call) and norm(st.value.func).endswith("deepcopy") and [norm(a) for a in st.value.args] == [v_]:
+                        d_ = norm(st.targets[0].value)
+                        if any(isinstance(r, ast.Return) and r.value is not None and norm(r.value) == d_ for r in ast.walk(fn)):
+                            return True
+            if isinstance(lp, ast.DictComp) and len(lp.generators) == 1 and norm(lp.generators[0].iter) == "self.vals.items()" \
+                    and isinstance(lp.value, ast.Call) and norm(lp.value.func).endswith("deepcopy") and not lp.generators[0].ifs:
+                return True
+        return False
+    if bv is not None and _copies_all(bv.node):
         rule.ok(bv.loc(), bv.fq, "backup copies every tracked variable")
     else:
         rule.violation(bv.loc() if bv else BR, BR + ":BranchingValues.backup", "", "backup does not cover every tracked variable", "merge/backup-all")
